@@ -16,6 +16,8 @@ The ANTLR recogniser is not verified: it enters as the hypothesis `V4 antlr` (DE
 -/
 import Contracts.Parser
 import Contracts.Layout
+import Contracts.FinalLabels
+import Contracts.Canonicalize
 set_option autoImplicit false
 set_option linter.unusedSimpArgs false
 set_option linter.unusedVariables false
@@ -246,5 +248,1283 @@ theorem astOf_wf {ms : Graph} {n : Nat} (hw : ms.WF) (hl : ms.Loopless) (hn : ms
       obtain ⟨i, h1, h2, rfl⟩ := hsp
       rw [e]
       exact numWf_pyStrInt_int i h1 h2
+
+/-! ## 2. the denotation of `astOf ms` is `ms` -/
+
+/-- What the serializer guarantees about the graph `ms` whose three sections are printed
+(`sortGraph m₁ "atomic_number"`): well formed, no self-loops, labels `0..n-1`, every atom carries an element
+symbol of the table and the table's atomic number for it, labels run in blocks of non-decreasing atomic
+number (`sorted_blocks_int`), mass / rad where present are positive integers; and all numbers are below
+`10^4300` (CPython's `int`/`str` conversion limit). -/
+structure SortedMol (ms : Graph) (n : Nat) : Prop where
+  wf : ms.WF
+  loopless : ms.Loopless
+  nodes : ms.nodeList.Perm (range n)
+  small : n < 10 ^ 4300
+  elem : ∀ i ∈ ms.nodeList, ∃ s ∈ Tucan.Consts.ELEMENT_ATTRS.keys,
+    ms.attr i "element_symbol" = some (Val.str s) ∧
+    ms.attr i "atomic_number" = (Tucan.Consts.ELEMENT_ATTRS.get? s).bind (·.get? "atomic_number")
+  blocks : ∀ i ∈ ms.nodeList, ∀ j ∈ ms.nodeList, i < j → ∀ x y : Int,
+    ms.attr i "atomic_number" = some (Val.int x) → ms.attr j "atomic_number" = some (Val.int y) → x ≤ y
+  mass : ∀ i ∈ ms.nodeList, ∀ v, ms.attr i "mass" = some v → SmallPos v
+  rad : ∀ i ∈ ms.nodeList, ∀ v, ms.attr i "rad" = some v → SmallPos v
+
+/-- element symbol of atom `i` -/
+def symAt (ms : Graph) (i : Nat) : Str := ((ms.attr (i : Int) "element_symbol").map Val.asStr).getD []
+/-- integer attribute of atom `i` -/
+def intAt (ms : Graph) (i : Nat) (k : String) : Option Int :=
+  (ms.attr (i : Int) k).bind (fun v => match v with | .int z => some z | _ => none)
+/-- atom `i` of `ms` -/
+def atomAt (ms : Graph) (i : Nat) : Atom :=
+  { symbol := symAt ms i, z := atomicNumber (symAt ms i), mass := intAt ms i "mass", rad := intAt ms i "rad" }
+/-- the molecule `ms` as an abstract molecule: atoms in label order, bonds `(smaller, larger)` ascending -/
+def molOf (ms : Graph) (n : Nat) : AbstractMol :=
+  { atoms := (List.range n).map (atomAt ms), bonds := (bondList ms).map (fun e => (e.1.toNat, e.2.toNat)) }
+
+theorem mem_nodeList_iff {ms : Graph} {n : Nat} (hn : ms.nodeList.Perm (range n)) (i : Int) :
+    i ∈ ms.nodeList ↔ 0 ≤ i ∧ i < n := by
+  rw [hn.mem_iff, mem_range_iff]
+
+theorem mem_nodeList_nat {ms : Graph} {n : Nat} (hn : ms.nodeList.Perm (range n)) {i : Nat} (hi : i < n) :
+    (i : Int) ∈ ms.nodeList := (mem_nodeList_iff hn _).2 ⟨by omega, by omega⟩
+
+namespace SortedMol
+variable {ms : Graph} {n : Nat}
+
+theorem sym_spec (h : SortedMol ms n) {i : Nat} (hi : i < n) :
+    symAt ms i ∈ periodicTable ∧ ms.attr (i : Int) "element_symbol" = some (Val.str (symAt ms i)) ∧
+    ms.attr (i : Int) "atomic_number" = some (Val.int (atomicNumber (symAt ms i))) := by
+  obtain ⟨s, hs, h1, h2⟩ := h.elem _ (mem_nodeList_nat h.nodes hi)
+  rw [keys_eq_table] at hs
+  have e : symAt ms i = s := by simp [symAt, h1, Val.asStr, pyStr, PyStr.pyStr]
+  rw [e]
+  exact ⟨hs, h1, by rw [h2, table_ok s hs]⟩
+
+/-- the symbols of the atoms in label order -/
+theorem symbolsOf_perm (h : SortedMol ms n) : (symbolsOf ms).Perm ((List.range n).map (symAt ms)) := by
+  rw [symbolsOf_eq h.wf]
+  refine (h.nodes.filterMap _).trans ?_
+  rw [range, List.filterMap_map]
+  simp only [Int.toNat_natCast]
+  rw [← List.filterMap_eq_map]
+  apply List.Perm.of_eq
+  apply List.filterMap_congr
+  intro i hi
+  have := (h.sym_spec (List.mem_range.1 hi)).2.1
+  simp only [Function.comp, Int.ofNat_eq_natCast, this, Option.map_some]
+  rfl
+
+theorem symbolsOf_keys (h : SortedMol ms n) : ∀ s ∈ symbolsOf ms, s ∈ Tucan.Consts.ELEMENT_ATTRS.keys := by
+  intro s hs
+  rw [h.symbolsOf_perm.mem_iff] at hs
+  obtain ⟨i, hi, rfl⟩ := List.mem_map.1 hs
+  rw [keys_eq_table]
+  exact (h.sym_spec (List.mem_range.1 hi)).1
+
+theorem astOf_wf (h : SortedMol ms n) : (astOf ms).Wf :=
+  Contracts.RoundTrip.astOf_wf h.wf h.loopless h.nodes h.small h.symbolsOf_keys h.mass h.rad
+
+theorem in_grammar (h : SortedMol ms n) : Grammar.tucan (render (astOf ms)) := by
+  rw [← tucanSpec_eq_render]
+  exact Grammar.tucanSpec_in_grammar h.wf (fun a ha => ((mem_nodeList_iff h.nodes a).1 ha).1) h.symbolsOf_keys
+    (fun a ha v hv => (h.mass a ha v hv).posInt) (fun a ha v hv => (h.rad a ha v hv).posInt)
+
+end SortedMol
+
+/-! ### the formula expands to the atoms in label order -/
+
+theorem countOf_countStr (c : Nat) (h : 1 ≤ c) : countOf (countStr c) = c := by
+  unfold countStr
+  by_cases h1 : 1 < c
+  · simp only [h1, if_true, countOf]; exact num_pyStrInt c
+  · simp only [h1, if_false, countOf]; omega
+
+theorem count_flatMap_replicate {α : Type} [BEq α] [LawfulBEq α] (c : α → Nat) (a : α) (ks : List α)
+    (hnd : ks.Nodup) :
+    (a ∈ ks → (ks.flatMap (fun s => List.replicate (c s) s)).count a = c a) ∧
+    (a ∉ ks → (ks.flatMap (fun s => List.replicate (c s) s)).count a = 0) := by
+  induction ks with
+  | nil => simp
+  | cons k ks ih =>
+    obtain ⟨hk, hnd'⟩ := List.nodup_cons.1 hnd
+    obtain ⟨ih1, ih2⟩ := ih hnd'
+    simp only [List.flatMap_cons, List.count_append, List.count_replicate, List.mem_cons, not_or]
+    constructor
+    · rintro (rfl | hm)
+      · simp [ih2 hk]
+      · have : k ≠ a := by rintro rfl; exact hk hm
+        simp [this, ih1 hm]
+    · rintro ⟨h1, h2⟩
+      have : k ≠ a := fun e => h1 e.symm
+      simp [this, ih2 h2]
+
+/-- the Hill-ordered formula expanded lists every atom's symbol once -/
+theorem expand_perm (ms : Graph) : (expand (astOf ms).formula).Perm (symbolsOf ms) := by
+  have he : expand (astOf ms).formula =
+      (hillOrder (symbolsOf ms)).flatMap (fun s => List.replicate ((symbolsOf ms).count s) s) := by
+    simp only [expand, astOf, List.flatMap_map]
+    apply List.flatMap_congr
+    intro s hs
+    have : 1 ≤ (symbolsOf ms).count s := List.count_pos_iff.2 ((mem_hillOrder _ s).1 hs)
+    simp only [countOf_countStr _ this]
+  rw [he, List.perm_iff_count]
+  intro a
+  obtain ⟨h1, h2⟩ := count_flatMap_replicate (fun s => (symbolsOf ms).count s) a _ (hillOrder_nodup (symbolsOf ms))
+  by_cases ha : a ∈ hillOrder (symbolsOf ms)
+  · exact h1 ha
+  · rw [h2 ha]
+    exact (List.count_eq_zero.2 (fun hm => ha ((mem_hillOrder _ a).2 hm))).symm
+
+theorem atomicNumber_inj {a b : Str} (ha : a ∈ periodicTable) (h : atomicNumber a = atomicNumber b) : a = b := by
+  unfold atomicNumber at h
+  have : periodicTable.idxOf a = periodicTable.idxOf b := by omega
+  exact (List.idxOf_inj ha).1 this
+
+theorem byZ_trans (a b c : Str) (h1 : byZ a b = true) (h2 : byZ b c = true) : byZ a c = true := by
+  simp only [byZ, decide_eq_true_eq] at *; omega
+
+theorem byZ_total (a b : Str) : (byZ a b || byZ b a) = true := by
+  simp only [byZ, Bool.or_eq_true, decide_eq_true_eq]; omega
+
+/-- **key step**: expanding the Hill-ordered formula and sorting stably by atomic number reproduces the
+label order of `ms` -/
+theorem sortedSyms_astOf {ms : Graph} {n : Nat} (h : SortedMol ms n) :
+    sortedSyms (astOf ms) = (List.range n).map (symAt ms) := by
+  rw [sortedSyms_eq]
+  have hperm : ((expand (astOf ms).formula).mergeSort byZ).Perm ((List.range n).map (symAt ms)) :=
+    (List.mergeSort_perm _ _).trans ((expand_perm ms).trans h.symbolsOf_perm)
+  refine List.Perm.eq_of_pairwise (le := fun a b => byZ a b = true) ?_ ?_ ?_ hperm
+  · intro a b ha hb h1 h2
+    rw [hperm.mem_iff] at ha
+    obtain ⟨i, hi, rfl⟩ := List.mem_map.1 ha
+    apply atomicNumber_inj (h.sym_spec (List.mem_range.1 hi)).1
+    simp only [byZ, decide_eq_true_eq] at h1 h2
+    omega
+  · exact List.pairwise_mergeSort byZ_trans byZ_total _
+  · rw [List.pairwise_map]
+    refine List.Pairwise.imp_of_mem ?_ List.pairwise_lt_range
+    intro i j hi hj hij
+    have hi' := List.mem_range.1 hi
+    have hj' := List.mem_range.1 hj
+    have := h.blocks _ (mem_nodeList_nat h.nodes hi') _ (mem_nodeList_nat h.nodes hj') (by omega) _ _
+      (h.sym_spec hi').2.2 (h.sym_spec hj').2.2
+    simp only [byZ, decide_eq_true_eq]
+    exact this
+
+/-! ### the attribute settings -/
+
+theorem blocks_astOf (ms : Graph) :
+    (astOf ms).blocks = (labelled ms).map (fun p => (pyStrInt (p.1 + 1), propsOf p.2)) := by
+  unfold Ast.blocks astOf
+  by_cases h : labelled ms = []
+  · simp [h]
+  · simp [h]
+
+theorem mem_propsOf_iff (a : Attrs) (kv : Key × Str) :
+    kv ∈ propsOf a ↔ ∃ v, a.get? kv.1.attr = some v ∧ kv.2 = pyStr v := by
+  refine ⟨mem_propsOf a kv, ?_⟩
+  rintro ⟨v, hv, e⟩
+  obtain ⟨k, s⟩ := kv
+  simp only at hv e
+  subst e
+  unfold propsOf
+  cases k with
+  | mass => simp only [Key.attr] at hv; simp [hv]
+  | rad => simp only [Key.attr] at hv; simp [hv]
+
+theorem propsOf_keys_nodup (a : Attrs) : ((propsOf a).map Prod.fst).Nodup := by
+  unfold propsOf
+  cases a.get? "mass" <;> cases a.get? "rad" <;> simp
+
+/-- index written for label `i` -/
+theorem num_index (i : Int) (h : 0 ≤ i) : num (pyStrInt (i + 1)) = i.toNat + 1 := by
+  have := num_pyStrInt_int (i + 1) (by omega)
+  omega
+
+theorem mem_settings {ms : Graph} (s : (Nat × Key) × Nat) :
+    s ∈ (astOf ms).settings ↔ ∃ p ∈ labelled ms, ∃ kv ∈ propsOf p.2,
+      s = ((num (pyStrInt (p.1 + 1)), kv.1), num kv.2) := by
+  simp only [Ast.settings, blocks_astOf, List.mem_flatMap, List.mem_map, exists_exists_and_eq_and]
+  constructor
+  · rintro ⟨p, hp, kv, hkv, rfl⟩; exact ⟨p, hp, kv, hkv, rfl⟩
+  · rintro ⟨p, hp, kv, hkv, rfl⟩; exact ⟨p, hp, kv, hkv, rfl⟩
+
+theorem settings_keys (ms : Graph) : (astOf ms).settings.map Prod.fst =
+    (labelled ms).flatMap (fun p => (propsOf p.2).map (fun kv => (num (pyStrInt (p.1 + 1)), kv.1))) := by
+  simp only [Ast.settings, blocks_astOf, List.flatMap_map, List.map_flatMap, List.map_map, Function.comp_def]
+
+theorem settings_keys_nodup {ms : Graph} {n : Nat} (hw : ms.WF) (hn : ms.nodeList.Perm (range n)) :
+    ((astOf ms).settings.map Prod.fst).Nodup := by
+  obtain ⟨hpw, hmem, hidx⟩ := blocks_layout (n := (n : Int)) hw hn
+  rw [settings_keys, List.nodup_flatMap]
+  constructor
+  · intro p _
+    have := propsOf_keys_nodup p.2
+    have e : (propsOf p.2).map (fun kv => (num (pyStrInt (p.1 + 1)), kv.1)) =
+        ((propsOf p.2).map Prod.fst).map (fun k => (num (pyStrInt (p.1 + 1)), k)) := by
+      rw [List.map_map]; rfl
+    rw [e]
+    refine List.Nodup.map_on ?_ this
+    intro a _ b _ e
+    simpa using e
+  · refine List.Pairwise.imp_of_mem ?_ hpw
+    intro p q hp hq hlt
+    simp only [Function.onFun, List.disjoint_left, List.mem_map]
+    rintro x ⟨kv, _, rfl⟩ ⟨kv', _, e⟩
+    have h1 := hidx p hp
+    have h2 := hidx q hq
+    simp only [Prod.mk.injEq] at e
+    rw [num_index _ (by omega), num_index _ (by omega)] at e
+    omega
+
+theorem assoc_eq_none {κ ν : Type} [DecidableEq κ] (l : List (κ × ν)) (k : κ) (h : k ∉ l.map Prod.fst) :
+    assoc l k = none := by
+  rw [assoc_eq_lookup]; exact (lookup_eq_none_iff' l k).2 h
+
+theorem assoc_of_mem_nodup {κ ν : Type} [DecidableEq κ] (l : List (κ × ν)) (k : κ) (v : ν)
+    (hn : (l.map Prod.fst).Nodup) (h : (k, v) ∈ l) : assoc l k = some v := by
+  rw [assoc_eq_lookup]; exact lookup_of_mem_nodup l k v hn h
+
+theorem assoc_settings {ms : Graph} {n : Nat} (h : SortedMol ms n) {i : Nat} (hi : i < n) (k : Key) :
+    (assoc (astOf ms).settings (i + 1, k)).map Int.ofNat = intAt ms i k.attr := by
+  have hnd := settings_keys_nodup h.wf h.nodes
+  obtain ⟨_, hmem, hidx⟩ := blocks_layout (n := (n : Int)) h.wf h.nodes
+  have hin := mem_nodeList_nat h.nodes hi
+  unfold intAt
+  cases hv : ms.attr (i : Int) k.attr with
+  | none =>
+    have : assoc (astOf ms).settings (i + 1, k) = none := by
+      apply assoc_eq_none
+      intro hc
+      obtain ⟨s, hs, e⟩ := List.mem_map.1 hc
+      obtain ⟨p, hp, kv, hkv, rfl⟩ := (mem_settings s).1 hs
+      have h1 := hidx p hp
+      simp only [Prod.mk.injEq] at e
+      rw [num_index _ (by omega)] at e
+      have hp1 : p.1 = (i : Int) := by omega
+      obtain ⟨v, hv', _⟩ := (mem_propsOf_iff _ _).1 hkv
+      rw [← attr_of_get? ((hmem p).1 hp).1, hp1, e.2, hv] at hv'
+      cases hv'
+    rw [this]; rfl
+  | some v =>
+    have hsp : SmallPos v := by
+      cases k with
+      | mass => exact h.mass _ hin v hv
+      | rad => exact h.rad _ hin v hv
+    obtain ⟨z, hz1, _, rfl⟩ := hsp
+    obtain ⟨a, ha⟩ : ∃ a, ms.node.get? (i : Int) = some a := by
+      unfold Graph.attr at hv
+      cases hg : ms.node.get? (i : Int) with
+      | none => rw [hg] at hv; cases hv
+      | some a => exact ⟨a, rfl⟩
+    have hva : a.get? k.attr = some (Val.int z) := by rw [← attr_of_get? ha]; exact hv
+    have hprops : hasProps a = true := by
+      unfold hasProps
+      cases k with
+      | mass => simp only [Key.attr] at hva; simp [hva]
+      | rad => simp only [Key.attr] at hva; simp [hva]
+    have hlab : ((i : Int), a) ∈ labelled ms := (hmem _).2 ⟨ha, hprops⟩
+    have hkv : (k, pyStr (Val.int z)) ∈ propsOf a := (mem_propsOf_iff _ _).2 ⟨_, hva, rfl⟩
+    have hms : ((i + 1, k), num (pyStrInt z)) ∈ (astOf ms).settings := by
+      rw [mem_settings]
+      refine ⟨_, hlab, _, hkv, ?_⟩
+      simp only [Prod.mk.injEq, and_true]
+      constructor
+      · rw [num_index _ (by omega)]; simp
+      · rfl
+    rw [assoc_of_mem_nodup _ _ _ hnd hms]
+    simp only [Option.map_some, Option.bind_some]
+    congr 1
+    exact num_pyStrInt_int z (by omega)
+
+/-! ### no rejection -/
+
+theorem length_sortedSyms {ms : Graph} {n : Nat} (h : SortedMol ms n) : (sortedSyms (astOf ms)).length = n := by
+  rw [sortedSyms_astOf h]; simp
+
+theorem bonds1_astOf (ms : Graph) :
+    (astOf ms).bonds1 = (bondList ms).map (fun e => (num (pyStrInt (e.1 + 1)), num (pyStrInt (e.2 + 1)))) := by
+  simp [Ast.bonds1, astOf, List.map_map, Function.comp_def]
+
+theorem not_rejected {ms : Graph} {n : Nat} (h : SortedMol ms n) :
+    ¬ ((astOf ms).BadIndex ∨ (astOf ms).SelfBond ∨ (astOf ms).DupAttr) := by
+  have htl := (tuples_layout (n := (n : Int)) h.wf h.loopless h.nodes).1
+  obtain ⟨_, hmem, hidx⟩ := blocks_layout (n := (n : Int)) h.wf h.nodes
+  rintro (hb | hs | hd)
+  · unfold Ast.BadIndex at hb
+    rw [length_sortedSyms h, bonds1_astOf] at hb
+    rcases hb with ⟨b, hb, hlt⟩ | ⟨s, hs, hlt⟩
+    · obtain ⟨e, he, rfl⟩ := List.mem_map.1 hb
+      have := htl e he
+      simp only at hlt
+      rw [num_index _ (by omega), num_index _ (by omega)] at hlt
+      omega
+    · obtain ⟨p, hp, kv, hkv, rfl⟩ := (mem_settings s).1 hs
+      have := hidx p hp
+      simp only at hlt
+      rw [num_index _ (by omega)] at hlt
+      omega
+  · unfold Ast.SelfBond at hs
+    rw [bonds1_astOf] at hs
+    obtain ⟨b, hb, heq⟩ := hs
+    obtain ⟨e, he, rfl⟩ := List.mem_map.1 hb
+    have := htl e he
+    simp only at heq
+    rw [num_index _ (by omega), num_index _ (by omega)] at heq
+    omega
+  · exact hd (settings_keys_nodup h.wf h.nodes)
+
+/-- **the denotation of the emitted string is the molecule itself**: exactly the atoms of `ms` in label
+order (symbol, Z, mass?, rad?) and exactly its bonds; no rejection. -/
+theorem denote_astOf {ms : Graph} {n : Nat} (h : SortedMol ms n) : denote (astOf ms) = .ok (molOf ms n) := by
+  unfold denote
+  rw [if_neg (not_rejected h), sortedSyms_astOf h]
+  congr 1
+  unfold molOf
+  congr 1
+  · apply List.ext_getElem
+    · simp
+    · intro i h1 h2
+      have hi : i < n := by simpa using h2
+      simp only [List.getElem_map, List.getElem_zipIdx, List.getElem_range, zero_add, atomAt]
+      have hm := assoc_settings h hi Key.mass
+      have hr := assoc_settings h hi Key.rad
+      simp only [Key.attr] at hm hr
+      rw [hm, hr]
+  · rw [bonds1_astOf, List.map_map]
+    apply List.map_congr_left
+    intro e he
+    have := (tuples_layout (n := (n : Int)) h.wf h.loopless h.nodes).1 e he
+    simp only [Function.comp]
+    rw [num_index _ (by omega), num_index _ (by omega)]
+    simp
+
+/-! ## 3. C03: parsing the emitted string gives the molecule back -/
+
+/-- the attributes that identify an atom (element, mass, radical) -/
+def idKeys : List String := ["element_symbol", "atomic_number", "mass", "rad"]
+
+/-- `g` and `h` are the same labelled molecule: same labels, the same element symbol, atomic number, isotope
+mass and radical on every label, the same adjacency (the identity on labels is an isomorphism of
+coloured graphs) -/
+structure IdIso (g h : Graph) : Prop where
+  nodes : ∀ i, i ∈ g.nodeList ↔ i ∈ h.nodeList
+  attrs : ∀ (i : Int) (k : String), k ∈ idKeys → g.attr i k = h.attr i k
+  nbrs : ∀ i j : Int, j ∈ g.nbrs i ↔ j ∈ h.nbrs i
+
+theorem IdIso.symm {g h : Graph} (r : IdIso g h) : IdIso h g :=
+  ⟨fun i => (r.nodes i).symm, fun i k hk => (r.attrs i k hk).symm, fun i j => (r.nbrs i j).symm⟩
+
+theorem IdIso.trans {g h k : Graph} (r₁ : IdIso g h) (r₂ : IdIso h k) : IdIso g k :=
+  ⟨fun i => (r₁.nodes i).trans (r₂.nodes i), fun i key hk => (r₁.attrs i key hk).trans (r₂.attrs i key hk),
+    fun i j => (r₁.nbrs i j).trans (r₂.nbrs i j)⟩
+
+/-- the printed bonds of identity-isomorphic graphs coincide -/
+theorem IdIso.bondList_eq {g h : Graph} (r : IdIso g h) (hg : g.WF) (hh : h.WF) : bondList g = bondList h := by
+  apply eq_of_strict_of_mem_iff (sorted_strict_of_nodup (nodup_normEdges hg))
+    (sorted_strict_of_nodup (nodup_normEdges hh))
+  intro e
+  show e ∈ bondList g ↔ e ∈ bondList h
+  rw [mem_bondList hg, mem_bondList hh, r.nbrs]
+
+theorem length_bondList (g : Graph) : ((bondList g).length : Int) = g.numberOfEdges := by
+  simp [bondList, sorted, Graph.numberOfEdges, Graph.edges]
+
+/-- "the same number of atoms and bonds" -/
+theorem IdIso.counts {g h : Graph} (r : IdIso g h) (hg : g.WF) (hh : h.WF) :
+    g.numberOfNodes = h.numberOfNodes ∧ g.numberOfEdges = h.numberOfEdges := by
+  constructor
+  · rw [Graph.numberOfNodes_eq, Graph.numberOfNodes_eq]
+    have : g.nodeList.Perm h.nodeList :=
+      (List.perm_ext_iff_of_nodup hg.nodup_nodeList hh.nodup_nodeList).2 r.nodes
+    rw [this.length_eq]
+  · rw [← length_bondList, ← length_bondList, r.bondList_eq hg hh]
+
+theorem attr_eq_none_of_not_mem {g : Graph} {i : Int} (h : i ∉ g.nodeList) (k : String) : g.attr i k = none := by
+  have : g.node.get? i = none := (Dict.get?_eq_none_iff _ _).2 h
+  simp [Graph.attr, this]
+
+theorem intAt_map {ms : Graph} {i : Nat} {k : String} (h : ∀ v, ms.attr (i : Int) k = some v → SmallPos v) :
+    (intAt ms i k).map Val.int = ms.attr (i : Int) k := by
+  unfold intAt
+  cases hv : ms.attr (i : Int) k with
+  | none => rfl
+  | some v =>
+    obtain ⟨z, _, _, rfl⟩ := h v hv
+    rfl
+
+theorem bonded_molOf {ms : Graph} {n : Nat} (h : SortedMol ms n) (i j : Int) :
+    (molOf ms n).Bonded i j ↔ j ∈ ms.nbrs i := by
+  have htl := (tuples_layout (n := (n : Int)) h.wf h.loopless h.nodes).1
+  unfold AbstractMol.Bonded molOf
+  simp only [List.mem_map, exists_exists_and_eq_and]
+  constructor
+  · rintro ⟨e, he, hor⟩
+    have := htl e he
+    have hm := ((mem_bondList h.wf e).1 he).2
+    have e1 : ((e.1.toNat : Nat) : Int) = e.1 := by omega
+    have e2 : ((e.2.toNat : Nat) : Int) = e.2 := by omega
+    rw [e1, e2] at hor
+    rcases hor with ⟨rfl, rfl⟩ | ⟨rfl, rfl⟩
+    · exact hm
+    · exact h.wf.mem_nbrs_symm hm
+  · intro hj
+    have hjn : j ∈ ms.nodeList := h.wf.nbr_mem _ _ hj
+    have hin : i ∈ ms.nodeList := h.wf.nbr_mem _ _ (h.wf.mem_nbrs_symm hj)
+    have hj0 := (mem_nodeList_iff h.nodes j).1 hjn
+    have hi0 := (mem_nodeList_iff h.nodes i).1 hin
+    rcases le_total i j with hle | hle
+    · refine ⟨(i, j), (mem_bondList h.wf _).2 ⟨hle, hj⟩, Or.inl ⟨?_, ?_⟩⟩ <;> simp only <;> omega
+    · refine ⟨(j, i), (mem_bondList h.wf _).2 ⟨hle, h.wf.mem_nbrs_symm hj⟩, Or.inr ⟨?_, ?_⟩⟩ <;> simp only <;> omega
+
+/-- **C03 (listener half).** For the graph `ms` whose sections are printed, the hand-written parser run over
+the parse tree of the emitted string returns a graph `g` with nodes `0..n-1` in this order that is the
+identity-isomorphic copy of `ms`: the same element symbol, atomic number, mass and rad on every label, the
+same adjacency; hence the same number of atoms and bonds. -/
+theorem C03_iso (env : DepEnv) {ms : Graph} {n : Nat} (h : SortedMol ms n) :
+    ∃ g, Tucan.parser.graph_from_tree env (treeOf (astOf ms)) = .ok g ∧ g.WF ∧ g.nodeList = range n ∧
+      IdIso g ms ∧ g.numberOfNodes = ms.numberOfNodes ∧ g.numberOfEdges = ms.numberOfEdges := by
+  have hok := graph_from_tree_ok env (astOf ms) h.astOf_wf
+  rw [denote_astOf h] at hok
+  obtain ⟨g, hg, R⟩ := hok
+  have hlen : (molOf ms n).atoms.length = n := by simp [molOf]
+  have hnodes : g.nodeList = range n := by rw [R.nodes, hlen]
+  have hiso : IdIso g ms := by
+    refine ⟨?_, ?_, ?_⟩
+    · intro i
+      rw [hnodes, h.nodes.mem_iff]
+    · intro i k hk
+      by_cases hi : i ∈ ms.nodeList
+      · obtain ⟨h0, h1⟩ := (mem_nodeList_iff h.nodes i).1 hi
+        obtain ⟨j, rfl⟩ := Int.eq_ofNat_of_zero_le h0
+        have hj : j < n := by omega
+        obtain ⟨a1, a2, _, a4, a5, _⟩ := R.attrs j (by rw [hlen]; exact hj)
+        obtain ⟨_, s2, s3⟩ := h.sym_spec hj
+        have hget : (molOf ms n).atoms[j]'(by rw [hlen]; exact hj) = atomAt ms j := by simp [molOf]
+        rw [hget] at a1 a2 a4 a5
+        simp only [idKeys, List.mem_cons, List.not_mem_nil, or_false] at hk
+        rcases hk with rfl | rfl | rfl | rfl
+        · rw [a1, s2]; rfl
+        · rw [a2, s3]; rfl
+        · rw [a4]; exact intAt_map (h.mass _ hi)
+        · rw [a5]; exact intAt_map (h.rad _ hi)
+      · have hi' : i ∉ g.nodeList := by rw [hnodes, ← h.nodes.mem_iff]; exact hi
+        rw [attr_eq_none_of_not_mem hi, attr_eq_none_of_not_mem hi']
+    · intro i j
+      rw [R.bonds, bonded_molOf h]
+  have hc := hiso.counts R.wf h.wf
+  exact ⟨g, hg, R.wf, hnodes, hiso, hc.1, hc.2⟩
+
+/-! ### with the recogniser (assumption V4) -/
+
+/-- **Assumption V4** about the ANTLR-generated recogniser, as a property of an abstract
+`antlr : Str → Option PTree` (`none`: an error listener fired): a sentence of the published grammar that is
+the rendering of a well-formed syntax tree is parsed into the tree of that syntax. -/
+def V4 (antlr : Str → Option PTree) : Prop :=
+  ∀ a : Ast, a.Wf → Grammar.tucan (render a) → antlr (render a) = some (treeOf a)
+
+/-- `graph_from_tucan` with the recogniser abstracted: ANTLR, then the tree walk with the listener, then
+`to_graph`. A syntax error (`none`) is the error listeners' `TucanParserException`. -/
+def graphFromTucan (antlr : Str → Option PTree) (env : DepEnv) (s : Str) : M Graph :=
+  match antlr s with
+  | some t => Tucan.parser.graph_from_tree env t
+  | none => .error TPE
+
+/-- **C03.** Parsing the TUCAN string emitted for `ms` yields the identity-isomorphic copy of `ms`. -/
+theorem C03_main (antlr : Str → Option PTree) (hV4 : V4 antlr) (env : DepEnv) {ms : Graph} {n : Nat}
+    (h : SortedMol ms n) :
+    ∃ g, graphFromTucan antlr env (tucanSpec ms) = .ok g ∧ g.WF ∧ g.nodeList = range n ∧
+      IdIso g ms ∧ g.numberOfNodes = ms.numberOfNodes ∧ g.numberOfEdges = ms.numberOfEdges := by
+  obtain ⟨g, hg, rest⟩ := C03_iso env h
+  refine ⟨g, ?_, rest⟩
+  unfold graphFromTucan
+  rw [tucanSpec_eq_render, hV4 _ h.astOf_wf h.in_grammar]
+  exact hg
+
+/-! ## 4. C02: equal strings ⇒ isomorphic molecules -/
+
+theorem range_inj {n₁ n₂ : Nat} (h : range (n₁ : Int) = range (n₂ : Int)) : n₁ = n₂ := by
+  have := congrArg List.length h
+  rwa [length_range, length_range] at this
+
+/-- **C02, label level.** Two sorted graphs with the same TUCAN string are the same labelled molecule: the
+same number of atoms, the same element symbol / atomic number / mass / rad on every label, the same
+adjacency. (Proved through the parser: both strings parse to the same graph, `C03_main`.) -/
+theorem C02_main (antlr : Str → Option PTree) (hV4 : V4 antlr) (env : DepEnv) {ms₁ ms₂ : Graph} {n₁ n₂ : Nat}
+    (h₁ : SortedMol ms₁ n₁) (h₂ : SortedMol ms₂ n₂) (e : tucanSpec ms₁ = tucanSpec ms₂) :
+    n₁ = n₂ ∧ IdIso ms₁ ms₂ := by
+  obtain ⟨g₁, p₁, _, nl₁, i₁, _⟩ := C03_main antlr hV4 env h₁
+  obtain ⟨g₂, p₂, _, nl₂, i₂, _⟩ := C03_main antlr hV4 env h₂
+  rw [e, p₂] at p₁
+  cases p₁
+  exact ⟨range_inj (nl₁.symm.trans nl₂), i₁.symm.trans i₂⟩
+
+/-- contrapositive form: molecules that differ (as labelled coloured graphs) get different strings -/
+theorem C02_contrapositive (antlr : Str → Option PTree) (hV4 : V4 antlr) (env : DepEnv) {ms₁ ms₂ : Graph}
+    {n₁ n₂ : Nat} (h₁ : SortedMol ms₁ n₁) (h₂ : SortedMol ms₂ n₂) (hne : ¬ IdIso ms₁ ms₂) :
+    tucanSpec ms₁ ≠ tucanSpec ms₂ :=
+  fun e => hne (C02_main antlr hV4 env h₁ h₂ e).2
+
+/-- identity-isomorphic graphs are isomorphic (via the identity) on each identity attribute -/
+theorem IdIso.isIsoOn {g h : Graph} (r : IdIso g h) (hg : g.WF) (hh : h.WF) {k : String} (hk : k ∈ idKeys) :
+    Graph.IsIsoOn k id g h where
+  inj := fun a _ b _ e => e
+  nodes := by
+    rw [List.map_id]
+    exact (List.perm_ext_iff_of_nodup hh.nodup_nodeList hg.nodup_nodeList).2 (fun i => (r.nodes i).symm)
+  attr := fun n _ => (r.attrs n k hk).symm
+  nbrs := fun n _ => by
+    rw [List.map_id]
+    exact (List.perm_ext_iff_of_nodup (hh.nodup_nbrs n) (hg.nodup_nbrs n)).2
+      (fun j => (r.nbrs n j).symm)
+
+/-! ### the pipeline produces a `SortedMol` -/
+
+/-- what `serialize_molecule` needs of its argument (a molecule graph as built by the readers / the parser):
+well formed, no self-loops, every atom carries an element symbol of the table together with the table's
+atomic number, mass / rad where present are positive integers; everything below `10^4300`. -/
+structure MolOK (m : Graph) : Prop where
+  wf : m.WF
+  loopless : m.Loopless
+  small : m.nodeList.length < 10 ^ 4300
+  elem : ∀ i ∈ m.nodeList, ∃ s ∈ Tucan.Consts.ELEMENT_ATTRS.keys,
+    m.attr i "element_symbol" = some (Val.str s) ∧
+    m.attr i "atomic_number" = (Tucan.Consts.ELEMENT_ATTRS.get? s).bind (·.get? "atomic_number")
+  mass : ∀ i ∈ m.nodeList, ∀ v, m.attr i "mass" = some v → SmallPos v
+  rad : ∀ i ∈ m.nodeList, ∀ v, m.attr i "rad" = some v → SmallPos v
+
+theorem MolOK.carries_Z {m : Graph} (h : MolOK m) : Carries m "atomic_number" := by
+  intro a ha
+  obtain ⟨s, hs, _, h2⟩ := h.elem a ha
+  rw [keys_eq_table] at hs
+  rw [h2, table_ok s hs]; rfl
+
+theorem loopless_iso {k : String} {π : Int → Int} {g h : Graph} (r : Graph.IsIsoOn k π g h) (hg : g.WF)
+    (hh : h.WF) (hl : g.Loopless) : h.Loopless := by
+  intro u hu
+  have hun : u ∈ h.nodeList := hh.nbr_mem u u hu
+  obtain ⟨a, ha, rfl⟩ := List.mem_map.1 (r.nodes.mem_iff.1 hun)
+  obtain ⟨v, hv, e⟩ := List.mem_map.1 ((r.nbrs a ha).mem_iff.1 hu)
+  have := r.inj v (hg.nbr_mem a v hv) a ha e
+  subst this
+  exact hl v hv
+
+/-- `MolOK` is invariant under isomorphisms that carry the identity attributes -/
+theorem MolOK.of_iso {π : Int → Int} {g h : Graph} (hg : MolOK g) (hh : h.WF)
+    (r : ∀ k ∈ idKeys, Graph.IsIsoOn k π g h) : MolOK h := by
+  have r1 := r "element_symbol" (by decide)
+  have r2 := r "atomic_number" (by decide)
+  have r3 := r "mass" (by decide)
+  have r4 := r "rad" (by decide)
+  refine ⟨hh, loopless_iso r1 hg.wf hh hg.loopless, ?_, ?_, ?_, ?_⟩
+  · rw [r1.nodes.length_eq, List.length_map]; exact hg.small
+  · intro i hi
+    obtain ⟨a, ha, rfl⟩ := List.mem_map.1 (r1.nodes.mem_iff.1 hi)
+    obtain ⟨s, hs, e1, e2⟩ := hg.elem a ha
+    exact ⟨s, hs, by rw [r1.attr a ha, e1], by rw [r2.attr a ha, e2]⟩
+  · intro i hi v hv
+    obtain ⟨a, ha, rfl⟩ := List.mem_map.1 (r1.nodes.mem_iff.1 hi)
+    rw [r3.attr a ha] at hv
+    exact hg.mass a ha v hv
+  · intro i hi v hv
+    obtain ⟨a, ha, rfl⟩ := List.mem_map.1 (r1.nodes.mem_iff.1 hi)
+    rw [r4.attr a ha] at hv
+    exact hg.rad a ha v hv
+
+/-- the graph whose sections `serialize_molecule` prints is a `SortedMol` -/
+theorem sortedMol_sortGraph {m₁ : Graph} (h : MolOK m₁) :
+    SortedMol (sortGraph m₁ "atomic_number") m₁.nodeList.length := by
+  obtain ⟨w, p, rel⟩ := sortGraph_spec h.wf "atomic_number"
+  have hp : (sortGraph m₁ "atomic_number").nodeList.Perm (range ((m₁.nodeList.length : Nat) : Int)) := by
+    rw [← Graph.numberOfNodes_eq]; exact p
+  have ok := h.of_iso w (fun k _ => rel.isIsoOn k)
+  refine ⟨w, ok.loopless, hp, h.small, ok.elem, ?_, ok.mass, ok.rad⟩
+  intro i hi j hj hij x y hx hy
+  exact sorted_blocks_int h.wf "atomic_number" hi hj hij hx hy
+
+/-! ### lifting to the molecules handed to `serialize_molecule` -/
+
+/-- inverse of `π` on the list `l` -/
+def invOn (π : Int → Int) (l : List Int) (x : Int) : Int := (l.find? (fun b => decide (π b = x))).getD 0
+
+theorem invOn_apply {π : Int → Int} {l : List Int} {a : Int} (ha : a ∈ l)
+    (inj : ∀ a ∈ l, ∀ b ∈ l, π a = π b → a = b) : invOn π l (π a) = a := by
+  unfold invOn
+  cases hf : l.find? (fun b => decide (π b = π a)) with
+  | none =>
+    have := List.find?_eq_none.1 hf a ha
+    simp at this
+  | some b =>
+    have h1 := List.find?_some hf
+    have h2 := List.mem_of_find?_eq_some hf
+    simp only [decide_eq_true_eq] at h1
+    exact inj b h2 a ha h1
+
+/-- a colour-preserving isomorphism has an inverse -/
+theorem isIsoOn_symm {k : String} {π : Int → Int} {g h : Graph} (r : Graph.IsIsoOn k π g h) (hg : g.WF) :
+    Graph.IsIsoOn k (invOn π g.nodeList) h g := by
+  have hinv : ∀ a ∈ g.nodeList, invOn π g.nodeList (π a) = a := fun a ha => invOn_apply ha r.inj
+  have hpre : ∀ x ∈ h.nodeList, ∃ a ∈ g.nodeList, π a = x := by
+    intro x hx
+    obtain ⟨a, ha, e⟩ := List.mem_map.1 (r.nodes.mem_iff.1 hx)
+    exact ⟨a, ha, e⟩
+  refine ⟨?_, ?_, ?_, ?_⟩
+  · intro x hx y hy e
+    obtain ⟨a, ha, rfl⟩ := hpre x hx
+    obtain ⟨b, hb, rfl⟩ := hpre y hy
+    rw [hinv a ha, hinv b hb] at e
+    rw [e]
+  · have := r.nodes.map (invOn π g.nodeList)
+    rw [List.map_map] at this
+    refine List.Perm.trans ?_ this.symm
+    apply List.Perm.of_eq
+    conv_lhs => rw [← List.map_id g.nodeList]
+    apply List.map_congr_left
+    intro a ha
+    simp only [Function.comp, hinv a ha, id]
+  · intro x hx
+    obtain ⟨a, ha, rfl⟩ := hpre x hx
+    rw [hinv a ha, r.attr a ha]
+  · intro x hx
+    obtain ⟨a, ha, rfl⟩ := hpre x hx
+    rw [hinv a ha]
+    have := (r.nbrs a ha).map (invOn π g.nodeList)
+    rw [List.map_map] at this
+    refine List.Perm.trans ?_ this.symm
+    apply List.Perm.of_eq
+    conv_lhs => rw [← List.map_id (g.nbrs a)]
+    apply List.map_congr_left
+    intro b hb
+    simp only [Function.comp, hinv b (hg.nbr_mem a b hb), id]
+
+open Contracts.FinalLabels in
+/-- clearing the `explored` flags does not touch the identity attributes or the adjacency -/
+theorem isIsoOn_clearExplored (m : Graph) {k : String} (hk : k ∈ idKeys) :
+    Graph.IsIsoOn k id m (clearExplored m) where
+  inj := fun a _ b _ e => e
+  nodes := by rw [List.map_id, Graph.nodeList_setNodeAttrScalar]
+  attr := fun n _ => by
+    have : k ≠ "explored" := by
+      simp only [idKeys, List.mem_cons, List.not_mem_nil, or_false] at hk
+      rcases hk with rfl | rfl | rfl | rfl <;> decide
+    rw [Graph.attr_setNodeAttrScalar, if_neg this]; rfl
+  nbrs := fun n _ => by rw [List.map_id]; exact List.Perm.refl _
+
+open Contracts.FinalLabels in
+/-- **the serializer, end to end.** For a molecule `m` fit for serialization whose atoms carry `partition`,
+`serialize_molecule` returns the string `tucanSpec ms` of a `SortedMol ms` that is `m` under a one-to-one
+renaming `σ` of the atoms carrying element symbol, atomic number, mass, rad and adjacency. -/
+theorem serialize_molecule_sorted (env : DepEnv) (hs : env.SetLawful) (fuel : Nat) {m : Graph} (hm : MolOK m)
+    (hc : Carries m "partition") (hf : fuel ≥ fuelBound m) :
+    ∃ ms σ, Tucan.serialization.serialize_molecule env fuel m = .ok (tucanSpec ms, clearExplored m) ∧
+      SortedMol ms m.nodeList.length ∧ ∀ k ∈ idKeys, Graph.IsIsoOn k σ m ms := by
+  obtain ⟨r, m', π, hrun, rfl, rw, rel, rnl, _⟩ := assign_final_labels_relabel env hs fuel hm.wf hc hf
+  have iso1 : ∀ k ∈ idKeys, Graph.IsIsoOn k (π ∘ id) m r :=
+    fun k hk => (isIsoOn_clearExplored m hk).trans (rel.isIsoOn k)
+  have okr : MolOK r := hm.of_iso rw iso1
+  obtain ⟨w, p, rel2⟩ := sortGraph_spec okr.wf "atomic_number"
+  have hlen : r.nodeList.length = m.nodeList.length := by rw [rnl, List.length_map]
+  refine ⟨sortGraph r "atomic_number", sortPos r "atomic_number" ∘ (π ∘ id), ?_, ?_, ?_⟩
+  · exact serialize_molecule_eq env fuel m r _ hrun okr.wf okr.carries_Z
+  · rw [← hlen]; exact sortedMol_sortGraph okr
+  · intro k hk
+    exact (iso1 k hk).trans (rel2.isIsoOn k)
+
+open Contracts.FinalLabels in
+/-- **C02 for `serialize_molecule`.** If two molecules (fit for serialization, atoms carrying `partition`)
+are given the same TUCAN string, they are isomorphic as graphs coloured by element symbol, atomic number,
+mass and rad: one bijection `π` of the atoms carries all four attributes and the adjacency.
+Contrapositive: non-isomorphic molecules get different strings. -/
+theorem C02_serialize (antlr : Str → Option PTree) (hV4 : V4 antlr) (env : DepEnv) (hs : env.SetLawful)
+    (fuel₁ fuel₂ : Nat) {m₁ m₂ m₁' m₂' : Graph} {s : Str} (h₁ : MolOK m₁) (h₂ : MolOK m₂)
+    (c₁ : Carries m₁ "partition") (c₂ : Carries m₂ "partition")
+    (f₁ : fuel₁ ≥ fuelBound m₁) (f₂ : fuel₂ ≥ fuelBound m₂)
+    (e₁ : Tucan.serialization.serialize_molecule env fuel₁ m₁ = .ok (s, m₁'))
+    (e₂ : Tucan.serialization.serialize_molecule env fuel₂ m₂ = .ok (s, m₂')) :
+    ∃ π, ∀ k ∈ idKeys, Graph.IsIsoOn k π m₁ m₂ := by
+  obtain ⟨ms₁, σ₁, r₁, sm₁, i₁⟩ := serialize_molecule_sorted env hs fuel₁ h₁ c₁ f₁
+  obtain ⟨ms₂, σ₂, r₂, sm₂, i₂⟩ := serialize_molecule_sorted env hs fuel₂ h₂ c₂ f₂
+  rw [e₁] at r₁
+  rw [e₂] at r₂
+  have es : tucanSpec ms₁ = tucanSpec ms₂ := by
+    have a := (Prod.mk.inj (Except.ok.inj r₁)).1
+    have b := (Prod.mk.inj (Except.ok.inj r₂)).1
+    rw [← a, ← b]
+  obtain ⟨_, idiso⟩ := C02_main antlr hV4 env sm₁ sm₂ es
+  refine ⟨invOn σ₂ m₂.nodeList ∘ (id ∘ σ₁), ?_⟩
+  intro k hk
+  exact ((i₁ k hk).trans (idiso.isIsoOn sm₁.wf sm₂.wf hk)).trans (isIsoOn_symm (i₂ k hk) h₂.wf)
+
+/-! ### lifting to the molecules handed to `canonicalize_molecule` -/
+
+open Contracts.FinalLabels in
+theorem fuelBound_iso {k : String} {π : Int → Int} {g h : Graph} (r : Graph.IsIsoOn k π g h) :
+    fuelBound h = fuelBound g := by
+  unfold fuelBound
+  have h1 : h.nodeList.length = g.nodeList.length := by rw [r.nodes.length_eq, List.length_map]
+  have h2 : (h.nodeList.map (fun u => (h.nbrs u).length)).sum = (g.nodeList.map (fun u => (g.nbrs u).length)).sum := by
+    rw [(r.nodes.map _).sum_eq, List.map_map]
+    congr 1
+    apply List.map_congr_left
+    intro a ha
+    simp only [Function.comp, (r.nbrs a ha).length_eq, List.length_map]
+  rw [h1, h2]
+
+/-- what the serializer needs to know about the canonicalized molecule (`Canonicalize.C12_main` plus
+"`partition` is carried") -/
+theorem canonicalize_facts {env : DepEnv} (hs : env.SetLawful) (hb : BlissLawful env) {m : Graph}
+    (hm : m.WF) (hne : m.nodeList ≠ []) (hc : Carries m "invariant_code")
+    (fuel : Nat) (hf : fuel ≥ m.nodeList.length + 1) :
+    ∃ c ρ, Tucan.canonicalization.canonicalize_molecule env fuel m = .ok c ∧ c.WF ∧ Carries c "partition" ∧
+      ∀ k, k ≠ "partition" → Graph.IsIsoOn k ρ m c := by
+  obtain ⟨pg, rg, c, T⟩ := Canonicalize.canonicalize_molecule_ok hs hb hm hne hc fuel hf
+  have R := Canonicalize.isRelabelExcept_of_trace hm T T.relabel
+  refine ⟨c, _, T.result, T.wf, ?_, fun k hk => R.isIsoOn hk⟩
+  exact Canonicalize.carries_of_iso (T.relabel.isIsoOn "partition") T.refineSpec.dense.carries
+
+theorem idKeys_ne_partition {k : String} (hk : k ∈ idKeys) : k ≠ "partition" := by
+  simp only [idKeys, List.mem_cons, List.not_mem_nil, or_false] at hk
+  rcases hk with rfl | rfl | rfl | rfl <;> decide
+
+open Contracts.FinalLabels in
+/-- **C02, whole pipeline.** `m₁`, `m₂`: molecules fit for serialization (`MolOK`) with at least one atom whose
+atoms carry `invariant_code` (the postcondition of `graph_from_molecule`); lawful `set` iteration and bliss;
+enough fuel. If `serialize_molecule (canonicalize_molecule mᵢ)` gives the same TUCAN string for both, the
+molecules are isomorphic as graphs coloured by element symbol, atomic number, mass and rad.
+Contrapositive: non-isomorphic molecules have different TUCAN strings. -/
+theorem C02_pipeline (antlr : Str → Option PTree) (hV4 : V4 antlr) {env : DepEnv} (hs : env.SetLawful)
+    (hb : BlissLawful env) {m₁ m₂ c₁ c₂ c₁' c₂' : Graph} {s : Str}
+    (h₁ : MolOK m₁) (h₂ : MolOK m₂) (ne₁ : m₁.nodeList ≠ []) (ne₂ : m₂.nodeList ≠ [])
+    (ic₁ : Carries m₁ "invariant_code") (ic₂ : Carries m₂ "invariant_code")
+    (fa₁ fb₁ fa₂ fb₂ : Nat) (hfa₁ : fa₁ ≥ m₁.nodeList.length + 1) (hfa₂ : fa₂ ≥ m₂.nodeList.length + 1)
+    (hfb₁ : fb₁ ≥ fuelBound m₁) (hfb₂ : fb₂ ≥ fuelBound m₂)
+    (r₁ : Tucan.canonicalization.canonicalize_molecule env fa₁ m₁ = .ok c₁)
+    (r₂ : Tucan.canonicalization.canonicalize_molecule env fa₂ m₂ = .ok c₂)
+    (e₁ : Tucan.serialization.serialize_molecule env fb₁ c₁ = .ok (s, c₁'))
+    (e₂ : Tucan.serialization.serialize_molecule env fb₂ c₂ = .ok (s, c₂')) :
+    ∃ π, ∀ k ∈ idKeys, Graph.IsIsoOn k π m₁ m₂ := by
+  obtain ⟨d₁, ρ₁, q₁, w₁, p₁, i₁⟩ := canonicalize_facts hs hb h₁.wf ne₁ ic₁ fa₁ hfa₁
+  obtain ⟨d₂, ρ₂, q₂, w₂, p₂, i₂⟩ := canonicalize_facts hs hb h₂.wf ne₂ ic₂ fa₂ hfa₂
+  rw [r₁] at q₁; cases q₁
+  rw [r₂] at q₂; cases q₂
+  have ok₁ : MolOK c₁ := h₁.of_iso w₁ (fun k hk => i₁ k (idKeys_ne_partition hk))
+  have ok₂ : MolOK c₂ := h₂.of_iso w₂ (fun k hk => i₂ k (idKeys_ne_partition hk))
+  obtain ⟨π, hπ⟩ := C02_serialize antlr hV4 env hs fb₁ fb₂ ok₁ ok₂ p₁ p₂
+    (by rw [fuelBound_iso (i₁ "mass" (by decide))]; exact hfb₁)
+    (by rw [fuelBound_iso (i₂ "mass" (by decide))]; exact hfb₂) e₁ e₂
+  refine ⟨invOn ρ₂ m₂.nodeList ∘ (π ∘ ρ₁), ?_⟩
+  intro k hk
+  have hk' := idKeys_ne_partition hk
+  exact ((i₁ k hk').trans (hπ k hk)).trans (isIsoOn_symm (i₂ k hk') h₂.wf)
+
+/-! ### C03 for the molecules handed to `serialize_molecule` / `canonicalize_molecule` -/
+
+/-- a colour-preserving isomorphism preserves the numbers of atoms and bonds -/
+theorem counts_iso {k : String} {π : Int → Int} {g h : Graph} (r : Graph.IsIsoOn k π g h) (hg : g.WF) (hh : h.WF) :
+    h.numberOfNodes = g.numberOfNodes ∧ h.numberOfEdges = g.numberOfEdges := by
+  constructor
+  · rw [Graph.numberOfNodes_eq, Graph.numberOfNodes_eq, r.nodes.length_eq, List.length_map]
+  · have hd : h.dirPairs.length = g.dirPairs.length := by
+      rw [Graph.length_dirPairs, Graph.length_dirPairs]
+      rw [(r.nodes.map (fun u => (h.nbrs u).length)).sum_eq, List.map_map]
+      congr 1
+      apply List.map_congr_left
+      intro n hn
+      simp only [Function.comp]
+      rw [(r.nbrs n hn).length_eq, List.length_map]
+    have hl : h.loopNodes.length = g.loopNodes.length := by
+      unfold Graph.loopNodes
+      rw [← List.countP_eq_length_filter, ← List.countP_eq_length_filter, r.nodes.countP_eq, List.countP_map]
+      apply List.countP_congr
+      intro n hn
+      simp only [Function.comp, decide_eq_true_eq]
+      rw [(r.nbrs n hn).mem_iff, List.mem_map]
+      constructor
+      · rintro ⟨v, hv, e⟩
+        rwa [r.inj v (hg.nbr_mem n v hv) n hn e] at hv
+      · intro h'; exact ⟨n, h', rfl⟩
+    have h1 := Graph.two_mul_length_edges hg
+    have h2 := Graph.two_mul_length_edges hh
+    rw [Graph.numberOfEdges_eq, Graph.numberOfEdges_eq]
+    omega
+
+open Contracts.FinalLabels in
+/-- **C03 for `serialize_molecule`.** Parsing the string emitted for `m` returns a graph `g` with labels
+`0..n-1` that is isomorphic to `m`: one bijection `π` of the atoms carries element symbol, atomic number,
+mass, rad and the adjacency; `g` has as many atoms and bonds as `m`. -/
+theorem C03_serialize (antlr : Str → Option PTree) (hV4 : V4 antlr) (env : DepEnv) (hs : env.SetLawful)
+    (fuel : Nat) {m m' : Graph} {s : Str} (hm : MolOK m) (hc : Carries m "partition") (hf : fuel ≥ fuelBound m)
+    (e : Tucan.serialization.serialize_molecule env fuel m = .ok (s, m')) :
+    ∃ g π, graphFromTucan antlr env s = .ok g ∧ g.WF ∧ g.nodeList = range (m.nodeList.length : Int) ∧
+      (∀ k ∈ idKeys, Graph.IsIsoOn k π m g) ∧
+      g.numberOfNodes = m.numberOfNodes ∧ g.numberOfEdges = m.numberOfEdges := by
+  obtain ⟨ms, σ, r, sm, iso⟩ := serialize_molecule_sorted env hs fuel hm hc hf
+  rw [e] at r
+  obtain rfl : s = tucanSpec ms := (Prod.mk.inj (Except.ok.inj r)).1
+  obtain ⟨g, hg, gw, gn, idiso, _⟩ := C03_main antlr hV4 env sm
+  have iso' : ∀ k ∈ idKeys, Graph.IsIsoOn k (id ∘ σ) m g :=
+    fun k hk => (iso k hk).trans (idiso.symm.isIsoOn sm.wf gw hk)
+  have c := counts_iso (iso' "mass" (by decide)) hm.wf gw
+  exact ⟨g, _, hg, gw, gn, iso', c.1, c.2⟩
+
+open Contracts.FinalLabels in
+/-- **C03, whole pipeline.** Parsing the TUCAN string of a molecule `m` (canonicalize, then serialize)
+returns a graph isomorphic to `m` with the same element symbol, atomic number, mass and rad on every
+corresponding atom and the same number of atoms and bonds. -/
+theorem C03_pipeline (antlr : Str → Option PTree) (hV4 : V4 antlr) {env : DepEnv} (hs : env.SetLawful)
+    (hb : BlissLawful env) {m c c' : Graph} {s : Str} (hm : MolOK m) (hne : m.nodeList ≠ [])
+    (hic : Carries m "invariant_code") (fa fb : Nat) (hfa : fa ≥ m.nodeList.length + 1) (hfb : fb ≥ fuelBound m)
+    (r : Tucan.canonicalization.canonicalize_molecule env fa m = .ok c)
+    (e : Tucan.serialization.serialize_molecule env fb c = .ok (s, c')) :
+    ∃ g π, graphFromTucan antlr env s = .ok g ∧ g.WF ∧ g.nodeList = range (m.nodeList.length : Int) ∧
+      (∀ k ∈ idKeys, Graph.IsIsoOn k π m g) ∧
+      g.numberOfNodes = m.numberOfNodes ∧ g.numberOfEdges = m.numberOfEdges := by
+  obtain ⟨d, ρ, q, w, p, i⟩ := canonicalize_facts hs hb hm.wf hne hic fa hfa
+  rw [r] at q; cases q
+  have i' : ∀ k ∈ idKeys, Graph.IsIsoOn k ρ m c := fun k hk => i k (idKeys_ne_partition hk)
+  have ok : MolOK c := hm.of_iso w i'
+  have im := i' "mass" (by decide)
+  obtain ⟨g, π, hg, gw, gn, iso, c1, c2⟩ := C03_serialize antlr hV4 env hs fb ok p
+    (by rw [fuelBound_iso im]; exact hfb) e
+  have cc := counts_iso im hm.wf w
+  have hlen : c.nodeList.length = m.nodeList.length := by rw [im.nodes.length_eq, List.length_map]
+  refine ⟨g, π ∘ ρ, hg, gw, by rw [gn, hlen], fun k hk => (i' k hk).trans (iso k hk), ?_, ?_⟩
+  · rw [c1, cc.1]
+  · rw [c2, cc.2]
+
+/-! ### sanity of `render`: it is the token text of the parse tree -/
+
+theorem textList_append (l₁ l₂ : List PTree) :
+    PTree.textList (l₁ ++ l₂) = PTree.textList l₁ ++ PTree.textList l₂ := by
+  induction l₁ with
+  | nil => simp [PTree.textList]
+  | cons t ts ih => simp [PTree.textList, ih]
+
+theorem textList_map {α : Type} (f : α → PTree) (g : α → Str) (l : List α) (h : ∀ x ∈ l, (f x).text = g x) :
+    PTree.textList (l.map f) = (l.map g).flatten := by
+  induction l with
+  | nil => simp [PTree.textList]
+  | cons x xs ih =>
+    simp only [List.map_cons, PTree.textList, List.flatten_cons, h x (by simp)]
+    rw [ih (fun y hy => h y (by simp [hy]))]
+
+theorem text_elemTree (p : Str × Option Str) : (elemTree p).text = renderSym p := by
+  obtain ⟨s, c⟩ := p
+  cases c <;> simp [elemTree, renderSym, gt1Tree, PTree.text, PTree.textList]
+
+theorem text_tupleTree (t : Str × Str) : (tupleTree t).text = renderTuple t := by
+  simp [tupleTree, renderTuple, indexTree, text_gt0Tree, PTree.text, PTree.textList]
+
+theorem text_propTree (kv : Key × Str) : (propTree kv).text = renderProp kv := by
+  simp [propTree, renderProp, text_gt0Tree, PTree.text, PTree.textList]
+
+theorem intercalate_cons (sep x : Str) (rest : List Str) :
+    sep.intercalate (x :: rest) = x ++ (rest.map (fun y => sep ++ y)).flatten := by
+  induction rest generalizing x with
+  | nil => simp [List.intercalate]
+  | cons y rest ih =>
+    have := ih y
+    simp only [List.intercalate, List.intersperse] at this ⊢
+    simp only [List.flatten_cons, List.map_cons, this, List.append_assoc]
+
+theorem textList_sepProps (kvs : List (Key × Str)) :
+    PTree.textList (sepProps kvs) = join py!"," (kvs.map renderProp) := by
+  cases kvs with
+  | nil => simp [sepProps, PTree.textList, join]
+  | cons kv rest =>
+    have h : PTree.textList (rest.flatMap (fun kv => [PTree.tok py!",", propTree kv])) =
+        ((rest.map renderProp).map (fun y => py!"," ++ y)).flatten := by
+      induction rest with
+      | nil => simp [PTree.textList]
+      | cons kv' rest ih =>
+        simp only [List.flatMap_cons, textList_append, ih, List.map_cons, List.flatten_cons]
+        simp [PTree.textList, PTree.text, text_propTree]
+    simp only [sepProps, PTree.textList, text_propTree, List.map_cons, join, intercalate_cons, h]
+
+theorem text_attrTree (b : Str × List (Key × Str)) : (attrTree b).text = renderAttr b := by
+  simp [attrTree, renderAttr, indexTree, text_gt0Tree, textList_append, textList_sepProps, PTree.text,
+    PTree.textList]
+
+/-- the text of the tree that V4 prescribes for `render a` is `render a` (followed by the EOF token):
+`render` and `treeOf` describe the same string -/
+theorem text_treeOf (a : Ast) : (treeOf a).text = render a ++ py!"<EOF>" := by
+  unfold treeOf render
+  cases a.attrs with
+  | none =>
+    simp [formulaTree, textList_append, PTree.text, PTree.textList,
+      textList_map elemTree renderSym _ (fun p _ => text_elemTree p),
+      textList_map tupleTree renderTuple _ (fun p _ => text_tupleTree p)]
+  | some bs =>
+    simp [formulaTree, textList_append, PTree.text, PTree.textList,
+      textList_map elemTree renderSym _ (fun p _ => text_elemTree p),
+      textList_map tupleTree renderTuple _ (fun p _ => text_tupleTree p),
+      textList_map attrTree renderAttr _ (fun p _ => text_attrTree p)]
+
+/-! ## 5. C11: the denotation does not depend on the spelling -/
+
+/-- `b` is a respelling of `a`: the same sum formula; the same set of bonds, where tuples may be reordered,
+repeated and have their endpoints swapped; the same attribute settings, where blocks may be reordered, split
+and merged (the flat list of `((atom, key), value)` settings is permuted). -/
+structure Respell (a b : Ast) : Prop where
+  formula : a.formula = b.formula
+  bonds : ∀ i j : Nat, ((i, j) ∈ a.bonds1 ∨ (j, i) ∈ a.bonds1) ↔ ((i, j) ∈ b.bonds1 ∨ (j, i) ∈ b.bonds1)
+  settings : a.settings.Perm b.settings
+
+theorem Respell.symm {a b : Ast} (r : Respell a b) : Respell b a :=
+  ⟨r.formula.symm, fun i j => (r.bonds i j).symm, r.settings.symm⟩
+
+namespace Respell
+variable {a b : Ast}
+
+theorem sortedSyms_eq (r : Respell a b) : sortedSyms a = sortedSyms b := by
+  unfold sortedSyms; rw [r.formula]
+
+theorem badIndex_imp (r : Respell a b) (h : a.BadIndex) : b.BadIndex := by
+  unfold Ast.BadIndex at h ⊢
+  rw [← r.sortedSyms_eq]
+  rcases h with ⟨p, hp, hlt⟩ | ⟨s, hs, hlt⟩
+  · left
+    rcases (r.bonds p.1 p.2).1 (Or.inl hp) with h' | h'
+    · exact ⟨_, h', hlt⟩
+    · exact ⟨_, h', hlt.symm⟩
+  · exact Or.inr ⟨s, r.settings.mem_iff.1 hs, hlt⟩
+
+theorem selfBond_imp (r : Respell a b) (h : a.SelfBond) : b.SelfBond := by
+  obtain ⟨p, hp, e⟩ := h
+  obtain ⟨i, j⟩ := p
+  simp only at e
+  subst e
+  rcases (r.bonds i i).1 (Or.inl hp) with h' | h' <;> exact ⟨_, h', rfl⟩
+
+theorem dupAttr_iff (r : Respell a b) : a.DupAttr ↔ b.DupAttr := by
+  unfold Ast.DupAttr
+  rw [(r.settings.map Prod.fst).nodup_iff]
+
+theorem rejected_iff (r : Respell a b) :
+    (a.BadIndex ∨ a.SelfBond ∨ a.DupAttr) ↔ (b.BadIndex ∨ b.SelfBond ∨ b.DupAttr) := by
+  constructor
+  · rintro (h | h | h)
+    · exact Or.inl (r.badIndex_imp h)
+    · exact Or.inr (Or.inl (r.selfBond_imp h))
+    · exact Or.inr (Or.inr (r.dupAttr_iff.1 h))
+  · rintro (h | h | h)
+    · exact Or.inl (r.symm.badIndex_imp h)
+    · exact Or.inr (Or.inl (r.symm.selfBond_imp h))
+    · exact Or.inr (Or.inr (r.dupAttr_iff.2 h))
+
+theorem assoc_eq (r : Respell a b) (hnd : ¬ a.DupAttr) (k : Nat × Key) :
+    assoc a.settings k = assoc b.settings k := by
+  have hb : ¬ b.DupAttr := fun h => hnd (r.dupAttr_iff.2 h)
+  unfold Ast.DupAttr at hnd hb
+  rw [not_not] at hnd hb
+  cases h : assoc a.settings k with
+  | none =>
+    rw [assoc_eq_lookup, lookup_eq_none_iff'] at h
+    exact (assoc_eq_none _ _ (fun hc => h ((r.settings.map Prod.fst).mem_iff.2 hc))).symm
+  | some v =>
+    rw [assoc_eq_lookup] at h
+    exact (assoc_of_mem_nodup _ _ _ hb (r.settings.mem_iff.1 (lookup_mem _ _ _ h))).symm
+
+end Respell
+
+theorem bonded_iff_bonds1 (a : Ast) (l : List Atom) (i j : Int) :
+    (AbstractMol.mk l (a.bonds1.map (fun b => (b.1 - 1, b.2 - 1)))).Bonded i j ↔
+      ∃ p q : Nat, ((p, q) ∈ a.bonds1 ∨ (q, p) ∈ a.bonds1) ∧ ((p - 1 : Nat) : Int) = i ∧ ((q - 1 : Nat) : Int) = j := by
+  unfold AbstractMol.Bonded
+  simp only [List.mem_map, exists_exists_and_eq_and]
+  constructor
+  · rintro ⟨⟨p, q⟩, hb, (⟨h1, h2⟩ | ⟨h1, h2⟩)⟩
+    · exact ⟨p, q, Or.inl hb, h1, h2⟩
+    · exact ⟨q, p, Or.inr hb, h2, h1⟩
+  · rintro ⟨p, q, (hb | hb), h1, h2⟩
+    · exact ⟨(p, q), hb, Or.inl ⟨h1, h2⟩⟩
+    · exact ⟨(q, p), hb, Or.inr ⟨h2, h1⟩⟩
+
+/-- **C11 (denotation).** Respellings denote the same molecule: either both are rejected, or both denote
+molecules with equal atoms (symbol, Z, mass, rad per position) and equal bond sets. -/
+theorem C11_denote {a b : Ast} (r : Respell a b) :
+    (denote a = .error TPE ∧ denote b = .error TPE) ∨
+    ∃ ma mb, denote a = .ok ma ∧ denote b = .ok mb ∧ ma.atoms = mb.atoms ∧
+      ∀ i j : Int, ma.Bonded i j ↔ mb.Bonded i j := by
+  unfold denote
+  by_cases h : a.BadIndex ∨ a.SelfBond ∨ a.DupAttr
+  · left
+    rw [if_pos h, if_pos (r.rejected_iff.1 h)]
+    exact ⟨rfl, rfl⟩
+  · right
+    have hb : ¬ (b.BadIndex ∨ b.SelfBond ∨ b.DupAttr) := fun hb => h (r.rejected_iff.2 hb)
+    rw [if_neg h, if_neg hb]
+    have hnd : ¬ a.DupAttr := fun hd => h (Or.inr (Or.inr hd))
+    refine ⟨_, _, rfl, rfl, ?_, ?_⟩
+    · simp only [r.sortedSyms_eq, r.assoc_eq hnd]
+    · intro i j
+      rw [bonded_iff_bonds1, bonded_iff_bonds1]
+      constructor
+      · rintro ⟨p, q, hpq, e⟩; exact ⟨p, q, (r.bonds p q).1 hpq, e⟩
+      · rintro ⟨p, q, hpq, e⟩; exact ⟨p, q, (r.bonds p q).2 hpq, e⟩
+
+/-- a graph is determined, attribute by attribute and bond by bond, by the molecule it represents -/
+theorem represents_agree {g h : Graph} {ma mb : AbstractMol} (rg : Represents g ma) (rh : Represents h mb)
+    (hat : ma.atoms = mb.atoms) (hbo : ∀ i j : Int, ma.Bonded i j ↔ mb.Bonded i j) :
+    g.nodeList = h.nodeList ∧ (∀ (i : Int) (k : String), g.attr i k = h.attr i k) ∧
+    ∀ i j : Int, j ∈ g.nbrs i ↔ j ∈ h.nbrs i := by
+  have hn : g.nodeList = h.nodeList := by rw [rg.nodes, rh.nodes, hat]
+  refine ⟨hn, ?_, fun i j => by rw [rg.bonds, rh.bonds, hbo]⟩
+  intro i k
+  by_cases hk : k ∈ attrNames
+  · by_cases hi : i ∈ g.nodeList
+    · have hi' := hi
+      rw [rg.nodes, Contracts.Parser.mem_range] at hi'
+      obtain ⟨n, rfl⟩ := Int.eq_ofNat_of_zero_le hi'.1
+      have hlt : n < ma.atoms.length := by exact_mod_cast hi'.2
+      have hlt' : n < mb.atoms.length := by rw [← hat]; exact hlt
+      obtain ⟨a1, a2, a3, a4, a5, a6⟩ := rg.attrs n hlt
+      obtain ⟨b1, b2, b3, b4, b5, b6⟩ := rh.attrs n hlt'
+      have e : ma.atoms[n] = mb.atoms[n] := by simp only [hat]
+      simp only [attrNames, List.mem_cons, List.not_mem_nil, or_false] at hk
+      rcases hk with rfl | rfl | rfl | rfl | rfl | rfl
+      · rw [a1, b1, e]
+      · rw [a2, b2, e]
+      · rw [a3, b3]
+      · rw [a4, b4, e]
+      · rw [a5, b5, e]
+      · rw [a6, b6, e]
+    · have hi' : i ∉ h.nodeList := by rw [← hn]; exact hi
+      rw [attr_eq_none_of_not_mem hi, attr_eq_none_of_not_mem hi']
+  · have h1 : g.attr i k = none := by
+      by_contra hne; exact hk (rg.noOther i k hne)
+    have h2 : h.attr i k = none := by
+      by_contra hne; exact hk (rh.noOther i k hne)
+    rw [h1, h2]
+
+/-- **C11.** The hand-written parser gives respellings the same result: both are rejected with
+`TucanParserException`, or both are accepted and the two graphs have the same node list, the same value of
+every attribute on every atom and the same adjacency. -/
+theorem C11_main (env : DepEnv) {a b : Ast} (ha : a.Wf) (hb : b.Wf) (r : Respell a b) :
+    (Tucan.parser.graph_from_tree env (treeOf a) = .error TPE ∧
+      Tucan.parser.graph_from_tree env (treeOf b) = .error TPE) ∨
+    ∃ g h, Tucan.parser.graph_from_tree env (treeOf a) = .ok g ∧
+      Tucan.parser.graph_from_tree env (treeOf b) = .ok h ∧
+      g.nodeList = h.nodeList ∧ (∀ (i : Int) (k : String), g.attr i k = h.attr i k) ∧
+      ∀ i j : Int, j ∈ g.nbrs i ↔ j ∈ h.nbrs i := by
+  have ta := graph_from_tree_ok env a ha
+  have tb := graph_from_tree_ok env b hb
+  rcases C11_denote r with ⟨ea, eb⟩ | ⟨ma, mb, ea, eb, hat, hbo⟩
+  · rw [ea] at ta; rw [eb] at tb
+    exact Or.inl ⟨ta, tb⟩
+  · rw [ea] at ta; rw [eb] at tb
+    obtain ⟨g, hg, rg⟩ := ta
+    obtain ⟨h, hh, rh⟩ := tb
+    exact Or.inr ⟨g, h, hg, hh, represents_agree rg rh hat hbo⟩
+
+/-- `H2O/(3-2)(1-3)(3-1)/(3:rad=2)(1:mass=2)`: tuples reordered, swapped and repeated, blocks reordered -/
+def water' : Ast :=
+  { formula := [(py!"H", some py!"2"), (py!"O", none)]
+    tuples := [(py!"3", py!"2"), (py!"1", py!"3"), (py!"3", py!"1")]
+    attrs := some [(py!"3", [(Key.rad, py!"2")]), (py!"1", [(Key.mass, py!"2")])] }
+
+/-- `Respell` is satisfiable by a non-trivial respelling -/
+example : Respell water water' where
+  formula := rfl
+  bonds := by
+    intro i j
+    have e1 : water.bonds1 = [(1, 3), (2, 3)] := by decide
+    have e2 : water'.bonds1 = [(3, 2), (1, 3), (3, 1)] := by decide
+    rw [e1, e2]
+    simp only [List.mem_cons, Prod.mk.injEq, List.not_mem_nil, or_false]
+    omega
+  settings := by
+    have e1 : water.settings = [((1, Key.mass), 2), ((3, Key.rad), 2)] := by decide
+    have e2 : water'.settings = [((3, Key.rad), 2), ((1, Key.mass), 2)] := by decide
+    rw [e1, e2]
+    exact List.Perm.swap _ _ _
+
+/-! ## 6. `render` is injective on well-formed syntax: V4 is satisfiable, and C02 needs no recogniser -/
+
+def isUp (c : Char) : Bool := decide ('A' ≤ c ∧ c ≤ 'Z')
+def isLow (c : Char) : Bool := decide ('a' ≤ c ∧ c ≤ 'z')
+
+theorem up_not_low (c : Char) (h : isUp c = true) : isLow c = false := by
+  simp only [isUp, isLow, decide_eq_true_eq, decide_eq_false_iff_not, Char.le_def, UInt32.le_iff_toNat_le] at *
+  have e1 : ('A' : Char).val.toNat = 65 := rfl
+  have e2 : ('Z' : Char).val.toNat = 90 := rfl
+  have e3 : ('a' : Char).val.toNat = 97 := rfl
+  have e4 : ('z' : Char).val.toNat = 122 := rfl
+  omega
+
+theorem up_not_digit (c : Char) (h : isUp c = true) : isAsciiDigit c = false := by
+  simp only [isUp, isAsciiDigit, decide_eq_true_eq, decide_eq_false_iff_not, Char.le_def, UInt32.le_iff_toNat_le] at *
+  have e1 : ('A' : Char).val.toNat = 65 := rfl
+  have e2 : ('Z' : Char).val.toNat = 90 := rfl
+  have e3 : ('0' : Char).val.toNat = 48 := rfl
+  have e4 : ('9' : Char).val.toNat = 57 := rfl
+  omega
+
+theorem digit_not_low (c : Char) (h : isAsciiDigit c = true) : isLow c = false := by
+  simp only [isLow, isAsciiDigit, decide_eq_true_eq, decide_eq_false_iff_not, Char.le_def, UInt32.le_iff_toNat_le] at *
+  have e1 : ('a' : Char).val.toNat = 97 := rfl
+  have e2 : ('z' : Char).val.toNat = 122 := rfl
+  have e3 : ('0' : Char).val.toNat = 48 := rfl
+  have e4 : ('9' : Char).val.toNat = 57 := rfl
+  omega
+
+/-- an element symbol: an upper-case letter, optionally followed by a lower-case letter -/
+def symShape (s : Str) : Bool :=
+  match s with
+  | [u] => isUp u
+  | [u, l] => isUp u && isLow l
+  | _ => false
+
+set_option maxRecDepth 100000 in
+theorem table_shape : periodicTable.all symShape = true := by decide
+
+theorem sym_shape {s : Str} (h : s ∈ periodicTable) :
+    ∃ u lows, s = u :: lows ∧ isUp u = true ∧ ∀ c ∈ lows, isLow c = true := by
+  have := List.all_eq_true.1 table_shape s h
+  match s, this with
+  | [u], h => exact ⟨u, [], rfl, h, by simp⟩
+  | [u, l], h =>
+    simp only [symShape, Bool.and_eq_true] at h
+    exact ⟨u, [l], rfl, h.1, by simpa using h.2⟩
+
+/-- the longest prefix satisfying `P` is unique: if `p ++ r = p' ++ r'`, `P` holds throughout `p` and `p'`
+and fails at the heads of `r`, `r'` (if any), then `p = p'` and `r = r'` -/
+theorem span_unique (P : Char → Bool) : ∀ (p p' r r' : Str),
+    (∀ c ∈ p, P c = true) → (∀ c ∈ p', P c = true) →
+    (∀ c, r.head? = some c → P c = false) → (∀ c, r'.head? = some c → P c = false) →
+    p ++ r = p' ++ r' → p = p' ∧ r = r'
+  | [], [], r, r', _, _, _, _, e => ⟨rfl, e⟩
+  | [], c :: p', r, r', _, hp', hr, _, e => by
+    simp only [List.nil_append, List.cons_append] at e
+    subst e
+    have h1 := hr c rfl
+    have h2 := hp' c (by simp)
+    rw [h1] at h2; cases h2
+  | c :: p, [], r, r', hp, _, _, hr', e => by
+    simp only [List.nil_append, List.cons_append] at e
+    subst e
+    have h1 := hr' c rfl
+    have h2 := hp c (by simp)
+    rw [h1] at h2; cases h2
+  | c :: p, c' :: p', r, r', hp, hp', hr, hr', e => by
+    simp only [List.cons_append, List.cons.injEq] at e
+    obtain ⟨rfl, e⟩ := e
+    obtain ⟨h1, h2⟩ := span_unique P p p' r r' (fun d hd => hp d (by simp [hd]))
+      (fun d hd => hp' d (by simp [hd])) hr hr' e
+    exact ⟨by rw [h1], h2⟩
+
+theorem head?_append_of_all (P : Char → Bool) (p r : Str) (hp : ∀ c ∈ p, P c = true)
+    (hr : ∀ c, r.head? = some c → P c = true) : ∀ c, (p ++ r).head? = some c → P c = true := by
+  intro c hc
+  cases p with
+  | nil => exact hr c hc
+  | cons d p => simp at hc; subst hc; exact hp _ (by simp)
+
+/-! ### the sum formula -/
+
+structure ElemOK (p : Str × Option Str) : Prop where
+  sym : p.1 ∈ periodicTable
+  cnt : ∀ ds, p.2 = some ds → ds ≠ [] ∧ ∀ c ∈ ds, isAsciiDigit c = true
+
+theorem numWf_digits {ds : Str} (h : NumWf ds) : ds ≠ [] ∧ ∀ c ∈ ds, isAsciiDigit c = true :=
+  ⟨h.1, fun c hc => List.all_eq_true.1 h.2.1 c hc⟩
+
+def formulaStr (f : List (Str × Option Str)) : Str := (f.map renderSym).flatten
+
+theorem digits_getD (p : Str × Option Str) (h : ElemOK p) : ∀ c ∈ p.2.getD [], isAsciiDigit c = true := by
+  cases hp : p.2 with
+  | none => simp
+  | some ds => simpa using (h.cnt ds hp).2
+
+theorem head_formulaStr (f : List (Str × Option Str)) (hf : ∀ p ∈ f, ElemOK p) :
+    ∀ c, (formulaStr f).head? = some c → isUp c = true := by
+  intro c hc
+  cases f with
+  | nil => simp [formulaStr] at hc
+  | cons p r =>
+    obtain ⟨u, lows, e, hu, _⟩ := sym_shape (hf p (by simp)).sym
+    simp only [formulaStr, List.map_cons, List.flatten_cons, renderSym, e, List.cons_append,
+      List.head?_cons, Option.some.injEq] at hc
+    subst hc; exact hu
+
+theorem formulaStr_inj : ∀ (f f' : List (Str × Option Str)), (∀ p ∈ f, ElemOK p) → (∀ p ∈ f', ElemOK p) →
+    formulaStr f = formulaStr f' → f = f'
+  | [], [], _, _, _ => rfl
+  | [], p :: r, _, hf', e => by
+    obtain ⟨u, lows, e', _, _⟩ := sym_shape (hf' p (by simp)).sym
+    simp [formulaStr, renderSym, e'] at e
+  | p :: r, [], hf, _, e => by
+    obtain ⟨u, lows, e', _, _⟩ := sym_shape (hf p (by simp)).sym
+    simp [formulaStr, renderSym, e'] at e
+  | p :: r, p' :: r', hf, hf', e => by
+    have ok := hf p (by simp)
+    have ok' := hf' p' (by simp)
+    have hr : ∀ q ∈ r, ElemOK q := fun q hq => hf q (by simp [hq])
+    have hr' : ∀ q ∈ r', ElemOK q := fun q hq => hf' q (by simp [hq])
+    obtain ⟨u, lows, e1, hu, hl⟩ := sym_shape ok.sym
+    obtain ⟨u', lows', e1', hu', hl'⟩ := sym_shape ok'.sym
+    have hR := head_formulaStr r hr
+    have hR' := head_formulaStr r' hr'
+    have e2 : u :: (lows ++ (p.2.getD [] ++ formulaStr r)) = u' :: (lows' ++ (p'.2.getD [] ++ formulaStr r')) := by
+      simpa [formulaStr, renderSym, e1, e1', List.append_assoc] using e
+    obtain ⟨rfl, e3⟩ := List.cons.inj e2
+    have hd := digits_getD p ok
+    have hd' := digits_getD p' ok'
+    have hnl : ∀ (ds R : Str), (∀ c ∈ ds, isAsciiDigit c = true) → (∀ c, R.head? = some c → isUp c = true) →
+        ∀ c, (ds ++ R).head? = some c → isLow c = false := by
+      intro ds R h1 h2 c hc
+      cases ds with
+      | nil => exact up_not_low c (h2 c hc)
+      | cons d ds => simp at hc; subst hc; exact digit_not_low _ (h1 _ (by simp))
+    obtain ⟨rfl, e4⟩ := span_unique isLow lows lows' _ _ hl hl' (hnl _ _ hd hR) (hnl _ _ hd' hR') e3
+    obtain ⟨e5, e6⟩ := span_unique isAsciiDigit _ _ _ _ hd hd' (fun c hc => up_not_digit c (hR c hc))
+      (fun c hc => up_not_digit c (hR' c hc)) e4
+    have ih := formulaStr_inj r r' hr hr' e6
+    have hp : p = p' := by
+      obtain ⟨s, o⟩ := p
+      obtain ⟨s', o'⟩ := p'
+      simp only at e1 e1' e5
+      have : s = s' := by rw [e1, e1']
+      subst this
+      congr 1
+      cases o with
+      | none =>
+        cases o' with
+        | none => rfl
+        | some ds' => simp at e5; exact absurd e5 (ok'.cnt ds' rfl).1
+      | some ds =>
+        cases o' with
+        | none => simp at e5; exact absurd e5 (ok.cnt ds rfl).1
+        | some ds' => simp at e5; rw [e5]
+    rw [hp, ih]
+
+/-! ### tuples -/
+
+def TupOK (t : Str × Str) : Prop := (∀ c ∈ t.1, isAsciiDigit c = true) ∧ (∀ c ∈ t.2, isAsciiDigit c = true)
+
+def tuplesStr (ts : List (Str × Str)) : Str := (ts.map renderTuple).flatten
+
+theorem tuplesStr_cons (t : Str × Str) (ts : List (Str × Str)) :
+    tuplesStr (t :: ts) = '(' :: (t.1 ++ '-' :: (t.2 ++ ')' :: tuplesStr ts)) := by
+  simp [tuplesStr, renderTuple, List.append_assoc]
+
+theorem tuplesStr_inj : ∀ (ts ts' : List (Str × Str)), (∀ t ∈ ts, TupOK t) → (∀ t ∈ ts', TupOK t) →
+    tuplesStr ts = tuplesStr ts' → ts = ts'
+  | [], [], _, _, _ => rfl
+  | [], t :: r, _, _, e => by rw [tuplesStr_cons] at e; simp [tuplesStr] at e
+  | t :: r, [], _, _, e => by rw [tuplesStr_cons] at e; simp [tuplesStr] at e
+  | t :: r, t' :: r', h, h', e => by
+    rw [tuplesStr_cons, tuplesStr_cons] at e
+    obtain ⟨_, e⟩ := List.cons.inj e
+    have ok := h t (by simp)
+    have ok' := h' t' (by simp)
+    have nd : ∀ (x : Char) (R : Str), isAsciiDigit x = false → ∀ c, (x :: R).head? = some c → isAsciiDigit c = false := by
+      intro x R hx c hc; simp at hc; subst hc; exact hx
+    obtain ⟨e1, e⟩ := span_unique isAsciiDigit _ _ _ _ ok.1 ok'.1 (nd _ _ (by decide)) (nd _ _ (by decide)) e
+    obtain ⟨_, e⟩ := List.cons.inj e
+    obtain ⟨e2, e⟩ := span_unique isAsciiDigit _ _ _ _ ok.2 ok'.2 (nd _ _ (by decide)) (nd _ _ (by decide)) e
+    obtain ⟨_, e⟩ := List.cons.inj e
+    have ih := tuplesStr_inj r r' (fun q hq => h q (by simp [hq])) (fun q hq => h' q (by simp [hq])) e
+    rw [ih, Prod.ext e1 e2]
 
 end Contracts.RoundTrip
